@@ -1,6 +1,7 @@
 import PytezosModel.Proofs.C19Expand
 /-! C19 helper lemmas: what a successful match of each regex of the table says about the name (soundness of the
 matcher), and what a successful `build_pxr_tree` says about a `P…R` name. -/
+set_option linter.unusedSimpArgs false
 namespace C19.Grammar
 open Impl.Macros Generated.C19 Spec C19.Dispatch C19.Expand
 
